@@ -54,7 +54,8 @@ var (
 )
 
 func cfg(p [3]int, nips, nsubs int, mode string) Config {
-	return Config{PStart: p[0], PEnd: p[1], PPS: p[2], NIPs: nips, NSubs: nsubs, LogMode: mode}
+	// pools of three addresses are configured with one AddPublicIPRange call
+	return Config{PStart: p[0], PEnd: p[1], PPS: p[2], NIPs: nips, NSubs: nsubs, LogMode: mode, ByRange: nips >= 3}
 }
 
 // tableConfigs: closed transition tables (fixed point of the real object under the alphabet).
